@@ -19,7 +19,7 @@ from . import common, l1, oprun, zoo
 PID = "C15"
 CANARY = 999999
 TOL = 1e-9
-STATEFUL = {"FFT", "FFT2D", "FFTND", "Shift", "Diagonal", "Convolve1D", "Convolve2D", "ConvolveND", "Restriction", "Regression",
+STATEFUL = {"RegStack", "VStack", "HStack", "BlockDiag", "Block", "FFT", "FFT2D", "FFTND", "Shift", "Diagonal", "Convolve1D", "Convolve2D", "ConvolveND", "Restriction", "Regression",
             "LinearRegression", "NonStationaryConvolve1D", "NonStationaryConvolve2D", "NonStationaryFilters1D", "NonStationaryFilters2D",
             "Sliding1D", "Sliding2D", "Patch2D", "Identity", "CausalIntegration", "MDC", "Fredholm1", "Interp", "Smoothing1D", "DWT"}
 INPLACE_DOCUMENTED = {"Identity"}          # result may be a view of the input (documented in-place option)
@@ -145,7 +145,8 @@ def run_history(fam, params, r, length):
         if x.tobytes() != x_saved.tobytes() or not np.array_equal(x, x_saved, equal_nan=True):
             problems.append({"kind": "input modified", "step": step, "call": kind})
         # (d) aliasing
-        if aliased_in and fam not in INPLACE_DOCUMENTED:
+        inplace_ok = fam in INPLACE_DOCUMENTED and params.get("inplace", True)
+        if aliased_in and not inplace_ok:
             problems.append({"kind": "result aliases input", "step": step, "call": kind})
         for (a, s, lab) in held:
             if np.shares_memory(y, a):
@@ -248,6 +249,7 @@ def main(tier):
     thms, axioms = common.props_assumptions(PID)
     res = oprun.run(tier)
     recs = res["recs"]
+    known = [k for k in common.load_known() if k.get("property") == PID]
     length = 8 if tier == "quick" else 20
     nhist = 1 if tier == "quick" else 4
     t0 = time.time()
@@ -260,7 +262,8 @@ def main(tier):
             continue
         fam, params = rec["family"], rec["params"]
         stateful = fam in STATEFUL
-        if not stateful and tier == "quick" and rec["id"] % 3:
+        degenerate = fam == "Flip" and params["dims"] == [1]          # known finding C15-flip-len1: always exercised
+        if not stateful and not degenerate and tier == "quick" and rec["id"] % 3:
             continue
         nconf += 1
         for hno in range(nhist if stateful or tier == "thorough" else 1):
@@ -275,6 +278,10 @@ def main(tier):
             for k in tot:
                 tot[k] += out["stats"][k]
             for p in out["problems"]:
+                if (fam == "Flip" and p["kind"] == "result aliases input" and params["dims"][params.get("axis", -1)] == 1
+                        and any(k["id"] == "C15-flip-len1" for k in known)):
+                    R.known_finding("C15-flip-len1", [k for k in known if k["id"] == "C15-flip-len1"][0]["what"])
+                    continue
                 R.violation("%s %s: %s at call %s of the history (%s)" % (fam, params, p["kind"], p.get("step"), p.get("call")),
                             {"family": fam, "params": params, "rng_seed": seed_str, "length": length, "problem": p})
             cid = len(items)
